@@ -20,6 +20,7 @@ type psCounter struct {
 	mu       sync.Mutex
 	queued   int // messages enqueued on an entry and not yet dequeued
 	flying   int // delivery goroutines started and not yet finished
+	written  int // delivery goroutines finished (one frame each) since the last publish began
 	reverse  bool
 	parked   []chan struct{} // delivery goroutines held at ps.deliver (reverse mode)
 	parkWant int
@@ -53,6 +54,7 @@ func (p *psCounter) handle(name string, args ...any) {
 	case "ps.delivered":
 		p.mu.Lock()
 		p.flying--
+		p.written++
 		p.mu.Unlock()
 	}
 }
@@ -138,24 +140,50 @@ func runPubSubHistory(tr *Trace, h int, r *rand.Rand, length int, witness bool, 
 		conns[c] = Dial(srv.DB)
 	}
 	pub := Dial(srv.DB)
-	drain := func() map[string]any {
-		recv := map[string]any{}
+	// drain collects what the subscribers received.  Every delivery goroutine that has finished has written one
+	// frame, and the pipe hands it over synchronously - but the client's reader goroutine may not have parsed it
+	// yet (seen once on a loaded machine with a fixed 2 ms wait: the frame was attributed to nobody).  So the
+	// driver first waits for as many frames as deliveries have finished (up to 2 s: a frame that was never written
+	// is then reported as missing), and then looks once more on every connection for frames nobody announced.
+	drain := func(expected int) map[string]any {
+		got := map[string][]any{}
+		total := 0
+		take := func(c string, d time.Duration) bool {
+			f, ok := conns[c].Recv(d)
+			if !ok {
+				return false
+			}
+			if (f.T == "arr" || f.T == "push") && len(f.A) == 3 {
+				got[c] = append(got[c], map[string]any{"kind": string(f.A[0].B), "entry": string(f.A[1].B), "msg": string(f.A[2].B)})
+			} else {
+				got[c] = append(got[c], map[string]any{"kind": "?" + f.T, "entry": "", "msg": ""})
+			}
+			total++
+			return true
+		}
+		// one look at every connection (what the driver used to do) ...
 		for _, c := range names {
-			var ms []any
-			for {
-				f, ok := conns[c].Recv(2 * time.Millisecond)
-				if !ok {
-					break
-				}
-				if (f.T == "arr" || f.T == "push") && len(f.A) == 3 {
-					ms = append(ms, map[string]any{"kind": string(f.A[0].B), "entry": string(f.A[1].B), "msg": string(f.A[2].B)})
-				} else {
-					ms = append(ms, map[string]any{"kind": "?" + f.T, "entry": "", "msg": ""})
+			for take(c, 2*time.Millisecond) {
+			}
+		}
+		// ... and, if frames that were written have not shown up yet, wait for them
+		if total < expected {
+			tot["drain_waited"]++
+			dl := time.Now().Add(2 * time.Second)
+			for total < expected && time.Now().Before(dl) {
+				for _, c := range names {
+					for take(c, 200*time.Microsecond) {
+					}
 				}
 			}
-			if ms != nil {
-				recv[c] = ms
+			for _, c := range names {
+				for take(c, 2*time.Millisecond) {
+				}
 			}
+		}
+		recv := map[string]any{}
+		for c, ms := range got {
+			recv[c] = ms
 		}
 		return recv
 	}
@@ -166,6 +194,7 @@ func runPubSubHistory(tr *Trace, h int, r *rand.Rand, length int, witness bool, 
 		ctr.mu.Lock()
 		ctr.reverse = reverse
 		ctr.parked = nil
+		ctr.written = 0
 		ctr.mu.Unlock()
 		for i := 0; i < k; i++ {
 			msgN++
@@ -198,7 +227,10 @@ func runPubSubHistory(tr *Trace, h int, r *rand.Rand, length int, witness bool, 
 			}
 		}
 		quietOK := ctr.waitQuiet(5 * time.Second)
-		ev := map[string]any{"ev": "pub", "run": h, "ch": ch, "msgs": strs(msgs), "ok": ok && quietOK, "recv": drain(), "forced_reverse": reverse}
+		ctr.mu.Lock()
+		written := ctr.written
+		ctr.mu.Unlock()
+		ev := map[string]any{"ev": "pub", "run": h, "ch": ch, "msgs": strs(msgs), "ok": ok && quietOK, "recv": drain(written), "forced_reverse": reverse}
 		tr.Emit(ev)
 		tot["pub"]++
 		tot["messages"] += k
